@@ -144,6 +144,7 @@ def run_case(ctx, case):
     # prediction
     exp = None
     cur = None
+    gate_unknown = False
     applicable = all(("MAJOR MINOR PATCH".split()[i] in names) or not fl.get(f)
                      for i, f in enumerate(("major", "minor", "patch")))
     try:
@@ -159,8 +160,7 @@ def run_case(ctx, case):
         if ref.n_full_parses(ast, exp) != 1:
             raise harness.Skip("ambiguous-text")
         g = gate(old_text, exp)
-        if g == "unknown":
-            raise harness.Skip("both-legacy")
+        gate_unknown = g == "unknown"
         if g == "refuse":
             exp = None
     res = harness.invoke(["test", old_text, p] + gen.flags_to_args(fl, date))
@@ -201,6 +201,13 @@ def run_case(ctx, case):
             ctx.violation("other:update_differs_from_test", f"{gen.flags_to_args(fl, date)} on {old_text!r} {p!r}: "
                           f"test announces {got!r}, update --dry announces {ugot!r}", case=dict(case, old=old_text),
                           observed=ures.brief())
+    if exp is not None and gate_unknown:
+        # old and new text are both outside PEP 440: whether the version gate accepts is not modelled (legacy
+        # ordering), but an accepted bump has to announce exactly the model's text
+        if got is None:
+            ctx.count("non_pep440_pair:refused(gate not modelled)")
+            return
+        ctx.count("non_pep440_pair:accepted_text_compared")
     if got == exp:
         ctx.count("agree:accepted" if got else "agree:refused")
         if fl.get("pin_date"):
